@@ -162,6 +162,21 @@ def call_arg_roots(ctx, fn, bb, i):
     return set(ctx.roots(cv[4][i]))
 
 
+def _effect_free_deep(P, g, depth, _seen=None):
+    _seen = _seen if _seen is not None else set()
+    if g is None or g.body is None or depth > 5:
+        return False
+    if g.path in _seen:
+        return True
+    _seen.add(g.path)
+    if not common._effect_free(P, g, 0):
+        return False
+    for b, p, fr, t in P.calls(g):
+        if roles.is_workspace_fn(P, p) and not _effect_free_deep(P, P.fn(p) or P.fn(generic_path(p)), depth + 1, _seen):
+            return False
+    return True
+
+
 def check_before_everything(ctx, inst, fn, cont_edges, exempt_blocks, what, key):
     """All effects, success exits and all other workspace calls / storage reads of fn are dominated by every edge in cont_edges."""
     P = ctx.P
@@ -175,6 +190,10 @@ def check_before_everything(ctx, inst, fn, cont_edges, exempt_blocks, what, key)
         if b in exempt_blocks:
             continue
         if roles.is_workspace_fn(P, p):
+            # a helper that (transitively) neither writes storage nor builds a message decides nothing about funds: a pool
+            # membership test or an address conversion ahead of the funds check only changes which error is reported first
+            if _effect_free_deep(P, P.fn(p) or P.fn(generic_path(p)), 0):
+                continue
             targets.append((b, "call of %s" % generic_path(p)))
     for (b, op, item, v) in common.storage_sites(P, fn, writes=False):
         targets.append((b, "storage read %s" % item))
